@@ -2,6 +2,7 @@
 import vlib
 
 LEVEL = "proof"
+FAMILY = "varint"
 
 
 def hexb(bs):
